@@ -25,8 +25,18 @@ def all_props():
 
 
 def regen_all():
+    """regenerate EVERY coq/Gen table from /repo's working tree: the tables of harness/translate.py and the
+    `regen` of every property module (a Gen file left behind by a run against a scratch copy of the library, or
+    committed from one, must never survive into a build)"""
     import translate
-    return translate.regen_all()
+    out = translate.regen_all()
+    import glob
+    for f in sorted(glob.glob(os.path.dirname(os.path.abspath(__file__)) + "/props/c*.py")):
+        name = os.path.basename(f)[:-3]
+        mod = importlib.import_module("props." + name)
+        if hasattr(mod, "regen"):
+            out.append(mod.regen(Ctx(name.upper(), "quick", 1)))
+    return out
 
 
 def setup():
